@@ -16,7 +16,10 @@
     fragment that is still needed (each needed position once); a duplicate of an already stored
     position is accepted by `cluster.add` and counted, so m arrivals containing a duplicate can
     complete a group with a hole (the harness feeds duplicates only after completion, scenario 5).
-    Not proved either way; recorded as open.
+    Not proved either way; recorded as open.  [round s3: DECIDED, see the end of this file —
+    `duplicates_complete_by_count_partial`, `duplicate_delivers_corrupted_witness`; the run-level
+    sweep theorems are `fed_group_never_swept`, `starved_group_released`,
+    `stale_group_released_late_dropped`.]
   * `sweep_decrements` / `sweep_keeps_active` are one-step facts about `markSweepFrags`; "a stale
     group is gone after fragMaxMisses sweeps" and "sweeps between arrivals do not disturb a transfer
     that is fed" are their evident iterations and are exercised by the differential run (sweeps
@@ -24,6 +27,8 @@
   * `split_one_job`: the Job number drawn for a Job-less packet is a parameter of `withJob`.
 -/
 import XMT.FragMap
+import XMT.FragSweep
+import XMT.FragSend
 namespace XMT.Props.C02
 open XMT XMT.Packet XMT.Frag XMT.Flag
 
@@ -156,5 +161,276 @@ theorem sweep_keeps_active (fs : Frag.Frags) (g : Nat) (cl : Frag.Cluster) (h : 
   refine ⟨List.mem_map.mpr ⟨(g, cl), h, ?_⟩, ?_⟩
   · simp only [hm]
   · exact decide_eq_true (by simp only [hm]; omega)
+
+/-! ## Round s3 — repeated fragments (duplicates) and wake-ups over whole histories
+
+Lemmas: XMT/FragDup.lean, XMT/FragSweep.lean (the reassembly model itself is unchanged).
+
+  -- OPEN (decided, negative): "fragment 0 first, then the fragments in any order, some of them
+  -- MORE THAN ONCE ⇒ delivered exactly once, identical" is FALSE of the code: `cluster.add` stores and
+  -- counts a repetition, `cluster.done` completes by count. `duplicates_complete_by_count_partial` is
+  -- what does hold for every such arrival sequence; `duplicate_delivers_corrupted_witness` is the
+  -- proved negation on a concrete packet. Known finding `duplicate:needed-fragment-repeated`.
+  -- The sender never produces a repetition (`sender_never_repeats`) and nothing on the sending side
+  -- queues a fragment twice, so the finding needs a replaying network element or peer.
+-/
+
+/-- **The sender never repeats a fragment**: the positions of the fragments `Session.write` queues
+for one packet are `0, 1, …, m-1` in this order, each exactly once. -/
+theorem sender_never_repeats {F : Nat} {p : Pkt} {g m : Nat} (C : Ctx F p g m) :
+    (split F p g).map (fun f => position f.flags) = List.range m ∧
+    ((split F p g).map (fun f => position f.flags)).Nodup := by
+  rw [split_positions C]
+  exact ⟨rfl, List.nodup_range⟩
+
+/-- **Completion is by count** (the part of the duplicate statement that holds, for EVERY arrival
+sequence with repetitions): fragment 0 first, then any `m-1` fragments of the group — positions
+below `m`, repetitions allowed — are stored; the `m`-th arrival hands on exactly one packet, namely
+`assemble` of what was collected (the original only if nothing was repeated, see the witness), and
+releases the state; the fragments that arrive afterwards (positions above 0: the ones a repetition
+displaced) are each answered with `SvDrop` and make no new state. -/
+theorem duplicates_complete_by_count_partial {F : Nat} {p : Pkt} {g m : Nat} (C : Ctx F p g m)
+    (R : List Nat) (hRm : ∀ i ∈ R, i < m) (hlen : R.length + 1 = m)
+    (L : List Nat) (hL : ∀ i ∈ L, 0 < i ∧ i < m) :
+    ∃ v, assemble ((0 :: R).map (fr F p g m)) = some v ∧
+      feedGroup none (((0 :: R) ++ L).map (fr F p g m)) =
+        (none, (List.replicate (m - 1) Out.stored ++ [.deliver v]) ++
+               List.replicate L.length Out.dropReply) := by
+  obtain ⟨v, hv, hf⟩ := feed_any_positions C R hRm hlen
+  refine ⟨v, hv, ?_⟩
+  rw [List.map_append, feedGroup_append, hf]
+  simp only [late_positions_dropped C L hL]
+
+/-- the witness packet is in the domain of the reassembly theorems (F = 4, 15 fragments) -/
+theorem dupDemo_ctx : Ctx 4 dupDemo 9 15 :=
+  ⟨by decide, by decide, by decide, by decide, by decide, by decide, by decide, by decide, by decide⟩
+
+/-- **Negation of the full duplicate statement, on a concrete witness** (known finding
+`duplicate:needed-fragment-repeated`): every one of the 15 fragments arrives, fragment 0 first,
+fragment 1 twice (the second time while fragment 2 is still on its way). The 15th arrival hands the
+handler a packet whose payload is `f0 ++ f1 ++ f1` — not the original — and fragment 2, arriving
+next, is answered with `SvDrop`. -/
+theorem duplicate_delivers_corrupted_witness :
+    feedGroup none (dupArrivals.map (fr 4 dupDemo 9 15)) =
+      (none, List.replicate 14 Out.stored ++
+             [.deliver { dupDemo with payload := [1,2,3,4,5,6,7,8,5,6,7,8] }] ++ [.dropReply]) ∧
+    dupArrivals.head? = some 0 ∧ (∀ i, i < 15 → i ∈ dupArrivals) ∧
+    ({ dupDemo with payload := [1,2,3,4,5,6,7,8,5,6,7,8] } : Pkt).payload ≠ dupDemo.payload := by
+  decide
+
+/-- a repetition of fragment 0 that arrives when the group has no state (completed or swept) starts
+a new cluster, which stays (residual state) until `markSweepFrags` has run `fragMaxMisses` times -/
+theorem late_fragment_zero_restarts {F : Nat} {p : Pkt} {g m : Nat} (C : Ctx F p g m) :
+    feedGroup none [fr F p g m 0] = (some (St m [fr F p g m 0]), [Out.stored]) ∧
+    feedEv (some (St m [fr F p g m 0])) (List.replicate Facts.fragMaxMisses Ev.wake) = (none, []) := by
+  refine ⟨late_zero_restarts C, ?_⟩
+  have h1 : 1 ≤ (St m [fr F p g m 0]).c := by show 1 ≤ Facts.fragMaxMisses; decide
+  have h2 : (St m [fr F p g m 0]).c < 256 := by show Facts.fragMaxMisses < 256; decide
+  rw [feedEv_wakes _ _ h1 h2, if_neg (by show ¬ Facts.fragMaxMisses < Facts.fragMaxMisses; omega)]
+
+example : ∃ R L, (∀ i ∈ R, i < 15) ∧ R.length + 1 = 15 ∧ (∀ i ∈ L, 0 < i ∧ i < 15) ∧
+    (0 :: R) ++ L = dupArrivals :=
+  ⟨[1, 1, 3, 4, 5, 6, 7, 8, 9, 10, 11, 12, 13, 14], [2], by decide, by decide, by decide, by decide⟩
+
+/-- **A group that keeps receiving fragments is never swept — over ANY history.** `es` is any
+interleaving of arrivals (of any number of groups, any fragments that go through the reassembly
+path) and wake-ups of the receiving Session (`markSweepFrags`), starting from any fragment map `fs`
+(distinct keys) without state for `g`. If the arrivals of group `g` are its fragments, fragment 0
+first and the others in any order, and fewer than `fragMaxMisses` wake-ups fall between any two
+consecutive arrivals of the group (`paced`; wake-ups before its first and after its last arrival are
+unconstrained), then the group is answered exactly as without wake-ups: `m-1` times stored, then
+delivered once, identical to the original, and no state for `g` is left. -/
+theorem fed_group_never_swept {F : Nat} {p : Pkt} {g m : Nat} (C : Ctx F p g m)
+    (R : List Nat) (hR : (0 :: R).Perm (List.range m)) (es : List Ev) (fs : Frags)
+    (hn : (FragHostile.keys fs).Nodup) (hprop : ∀ n ∈ arrivals es, Proper n) (hfresh : fs.find g = none)
+    (hmine : (arrivals es).filter (fun n => group n.flags = g) = (0 :: R).map (fr F p g m))
+    (hpaced : paced Facts.fragMaxMisses none (projEv g es) = true) :
+    (runEv fs es).1.find g = none ∧
+    outsOf g (arrivals es) (runEv fs es).2 =
+      List.replicate (m - 1) Out.stored ++ [.deliver { p with tags := [] }] := by
+  obtain ⟨h1, h2⟩ := runEv_project g es fs hn hprop
+  have href := reassemble_any_order_partial C R hR
+  have harr : arrivals (projEv g es) = (0 :: R).map (fr F p g m) := by rw [arrivals_projEv, hmine]
+  have hno : ∀ o ∈ (feedGroup none (arrivals (projEv g es))).2, o ≠ Out.errMismatch := by
+    rw [harr, href]
+    intro o ho
+    simp only [List.mem_append, List.mem_replicate, List.mem_singleton] at ho
+    rcases ho with ⟨_, rfl⟩ | rfl <;> simp
+  obtain ⟨s1, s2⟩ := feedEv_paced (projEv g es) none none none (Or.inl ⟨rfl, rfl⟩) hpaced hno
+  rw [harr, href] at s1 s2
+  rw [hfresh] at h1 h2
+  refine ⟨?_, by rw [h2, s1]⟩
+  rw [h1]
+  rcases s2 with ⟨_, h⟩ | ⟨k, _, ⟨x, _, hx, _⟩ | ⟨_, h⟩⟩
+  · exact h
+  · simp at hx
+  · exact h
+
+/-- **A group that receives nothing is released after its counter has run out — over ANY history**
+of arrivals of other groups and wake-ups: with `w` wake-ups in the history, the entry of `g` is still
+there with its fragments untouched and its counter `w` lower while `w` is below the counter, and it
+is gone from then on. A state left by an arrival has counter `fragMaxMisses` (`recvGroup_c`), so
+`fragMaxMisses` wake-ups without a fragment release the group. -/
+theorem starved_group_released (g : Nat) (es : List Ev) (fs : Frags)
+    (hn : (FragHostile.keys fs).Nodup) (hprop : ∀ n ∈ arrivals es, Proper n)
+    (x : Cluster) (hx : fs.find g = some x) (h1 : 1 ≤ x.c) (h2 : x.c ≤ Facts.fragMaxMisses)
+    (hnone : ∀ n ∈ arrivals es, group n.flags ≠ g) :
+    (runEv fs es).1.find g = if wakes es < x.c then some { x with c := x.c - wakes es } else none := by
+  obtain ⟨p1, _⟩ := runEv_project g es fs hn hprop
+  have hF : Facts.fragMaxMisses < 256 := by decide
+  rw [p1, hx, projEv_no_arrival g es hnone, feedEv_wakes _ _ h1 (by omega)]
+
+/-- **Stale group, whole history**: the group gets fragment 0 and some more fragments, but fewer than
+`m` (paced history `es1`), then nothing during a history `es2` with at least `fragMaxMisses`
+wake-ups, then — history `es3` — fragments with a position above 0 arrive late. Nothing is ever
+delivered for the group: in `es1` every fragment is stored, after `es2` the group has no state, and
+in `es3` every late fragment is answered with `SvDrop` and no state is made. Fragments of other
+groups and further wake-ups may be interleaved everywhere. -/
+theorem stale_group_released_late_dropped {F : Nat} {p : Pkt} {g m : Nat} (C : Ctx F p g m)
+    (R : List Nat) (hRm : ∀ i ∈ R, i < m) (hlen : R.length + 1 < m)
+    (es1 es2 es3 : List Ev) (fs : Frags) (hn : (FragHostile.keys fs).Nodup) (hfresh : fs.find g = none)
+    (hp1 : ∀ n ∈ arrivals es1, Proper n) (hp2 : ∀ n ∈ arrivals es2, Proper n)
+    (hp3 : ∀ n ∈ arrivals es3, Proper n)
+    (hmine : (arrivals es1).filter (fun n => group n.flags = g) = (0 :: R).map (fr F p g m))
+    (hpaced : paced Facts.fragMaxMisses none (projEv g es1) = true)
+    (hnone : ∀ n ∈ arrivals es2, group n.flags ≠ g) (hw : Facts.fragMaxMisses ≤ wakes es2)
+    (L : List Nat) (hL : ∀ i ∈ L, 0 < i ∧ i < m)
+    (hlate : (arrivals es3).filter (fun n => group n.flags = g) = L.map (fr F p g m)) :
+    outsOf g (arrivals es1) (runEv fs es1).2 = List.replicate (R.length + 1) Out.stored ∧
+    (runEv (runEv fs es1).1 es2).1.find g = none ∧
+    outsOf g (arrivals es3) (runEv (runEv (runEv fs es1).1 es2).1 es3).2 =
+      List.replicate L.length Out.dropReply ∧
+    (runEv (runEv (runEv fs es1).1 es2).1 es3).1.find g = none := by
+  have hF : Facts.fragMaxMisses < 256 := by decide
+  -- es1
+  obtain ⟨a1, a2⟩ := runEv_project g es1 fs hn hp1
+  have href := missing_delivers_nothing C R hRm hlen
+  have harr : arrivals (projEv g es1) = (0 :: R).map (fr F p g m) := by rw [arrivals_projEv, hmine]
+  have hno : ∀ o ∈ (feedGroup none (arrivals (projEv g es1))).2, o ≠ Out.errMismatch := by
+    rw [harr, href]
+    intro o ho
+    simp only [List.mem_replicate] at ho
+    rw [ho.2]; simp
+  obtain ⟨s1, s2⟩ := feedEv_paced (projEv g es1) none none none (Or.inl ⟨rfl, rfl⟩) hpaced hno
+  rw [harr, href] at s1 s2
+  rw [hfresh] at a1 a2
+  have hn1 := keys_runEv_nodup es1 fs hn
+  have hn2 := keys_runEv_nodup es2 _ hn1
+  -- es2
+  have hmid : (runEv (runEv fs es1).1 es2).1.find g = none := by
+    rcases s2 with ⟨h, _⟩ | ⟨k, _, ⟨x, hk, hx, hc'⟩ | ⟨_, h⟩⟩
+    · simp at h
+    · have hst : (runEv fs es1).1.find g = some { x with c := Facts.fragMaxMisses - k } := by rw [a1, hc']
+      rw [starved_group_released g es2 _ hn1 hp2 _ hst (by simp only; omega) (by simp only; omega) hnone]
+      rw [if_neg (by simp only; omega)]
+    · obtain ⟨b1, _⟩ := runEv_project g es2 _ hn1 hp2
+      rw [b1, a1, h, projEv_no_arrival g es2 hnone, feedEv_none_wakes]
+  -- es3
+  obtain ⟨c1, c2⟩ := runEv_project g es3 _ hn2 hp3
+  have hlate' : ∀ n ∈ arrivals (projEv g es3), ∃ i, 0 < i ∧ i < m ∧ n = fr F p g m i := by
+    rw [arrivals_projEv, hlate]
+    intro n hnm
+    obtain ⟨i, hi, rfl⟩ := List.mem_map.mp hnm
+    exact ⟨i, (hL i hi).1, (hL i hi).2, rfl⟩
+  have h3 := feedEv_none_late C (projEv g es3) hlate'
+  rw [hmid, h3] at c1 c2
+  refine ⟨by rw [a2, s1], hmid, ?_, c1⟩
+  rw [c2, arrivals_projEv, hlate, List.length_map]
+
+/-! Non-vacuity of the history theorems: the 15 fragments of `dupDemo` (F = 4), fragment 0 first, two
+wake-ups after every fragment (30 in all, never 5 in a row) — delivered; and a history that stops
+after 3 fragments, 5 wake-ups: released, the late fragment 7 is answered with `SvDrop`. -/
+def demoPaced : List Ev :=
+  ((0 :: (List.range 15).drop 1).map (fun i => [Ev.arrive (fr 4 dupDemo 9 15 i), Ev.wake, Ev.wake])).flatten
+example : paced Facts.fragMaxMisses none (projEv 9 demoPaced) = true ∧ wakes demoPaced = 30 ∧
+    (runEv [] demoPaced).1 = [] ∧ (runEv [] demoPaced).2.getLast? = some (.deliver dupDemo) := by decide
+example :
+    (runEv [] ([0, 5, 3].map (fun i => Ev.arrive (fr 4 dupDemo 9 15 i)) ++ List.replicate 5 Ev.wake ++
+      [Ev.arrive (fr 4 dupDemo 9 15 7)])) = ([], [.stored, .stored, .stored, .dropReply]) := by decide
+
+/-! ## Round s3 — the sender side of the known finding `order:first-arrival-not-fragment-0` -/
+
+/-- **The sender never emits a fragment with a position above 0 before fragment 0 of its group**
+(one Session, one connection after the other). `write` (with or without the `ErrFullBuffer` guard,
+any channel capacity, any content `q0` queued before, a carried-over packet, anything `q2` queued
+afterwards) leaves a prefix of the fragments in the channel, and `next` — for all budgets, batching,
+keep-alive elision, carry-over, and also while a group other than `g` is being abandoned — hands
+them to the connections in that order: the positions of the fragments of group `g` that the peer
+observes over all transmissions until the queue drains are `0, 1, …, k-1` with
+`k = min (cap - len q0) m`. So the known finding `order:first-arrival-not-fragment-0` cannot be
+caused by one sender on its own connections; it takes reordering between connections (several
+connections in flight, a proxy hop) or a lost transmission of fragment 0.
+(`write` and the channel are one step here: no concurrent consumer frees a slot during the call.) -/
+theorem sender_emits_fragment_zero_first {F : Nat} {p : Pkt} {g m j : Nat}
+    (C : Ctx F (withJob p j) g m)
+    (P Fb : Nat) (hP : P < Facts.fragMax) (hP2 : 2 ≤ P) (i uuid : Bytes) (w : Bool) (cap : Nat)
+    (q0 q1 q2 : List Pkt) (st : Batch.St)
+    (hw : writeBig w cap uuid F q0 p g j = some q1) (hst : st.q = q1 ++ q2)
+    (hother : ∀ a ∈ st.peek.toList ++ q0 ++ q2, isFragOf g a = false)
+    (hpq : Batch.QWF (withJob p j)) (hqo : ∀ a ∈ st.peek.toList ++ q0 ++ q2, Batch.QWF a)
+    (hlast : st.last = 0 ∨ st.last ≠ g) :
+    ∃ obs, Batch.observe (Batch.drain P Fb i ((Batch.content st).length + 1) st) = .ok obs ∧
+      (obs.filter (isFragOf g)).map (fun n => position n.flags) =
+        List.range (min (cap - q0.length) m) := by
+  have hcont0 : Batch.content st = st.peek.toList ++ (q0 ++
+      ((split F (withJob p j) g).map (stamp uuid)).take (cap - q0.length) ++ q2) := by
+    unfold Batch.content
+    rw [hst, writeBig_prefix w cap uuid F q0 q1 p g j hw]
+  have hq : ∀ a ∈ Batch.content st, Batch.QWF a := by
+    rw [hcont0]
+    intro a ha
+    simp only [List.mem_append] at ha
+    rcases ha with ha | (ha | ha) | ha
+    · exact hqo a (by simp [ha])
+    · exact hqo a (by simp [ha])
+    · exact split_qwf C hpq uuid a (List.mem_of_mem_take ha)
+    · exact hqo a (by simp [ha])
+  obtain ⟨obs, ho, hk⟩ := group_order_preserved P Fb hP hP2 i st hq g hlast
+  refine ⟨obs, ho, ?_⟩
+  have hpos : ∀ l : List Pkt, (l.map Batch.core).map (fun n => position n.flags) =
+      l.map (fun n => position n.flags) := by intro l; rw [List.map_map]; rfl
+  have h1 := congrArg (List.map (fun n : Pkt => position n.flags)) hk
+  rw [hpos, hpos] at h1
+  rw [h1]
+  have hnil : ∀ l : List Pkt, (∀ a ∈ l, isFragOf g a = false) → l.filter (isFragOf g) = [] := by
+    intro l hl
+    rw [List.filter_eq_nil_iff]
+    intro a ha; rw [hl a ha]; simp
+  have hcont : Batch.content st = st.peek.toList ++ (q0 ++
+      ((split F (withJob p j) g).map (stamp uuid)).take (cap - q0.length) ++ q2) := by
+    unfold Batch.content
+    rw [hst, writeBig_prefix w cap uuid F q0 q1 p g j hw]
+  rw [hcont]
+  simp only [List.filter_append]
+  rw [hnil _ (fun a ha => hother a (by simp [ha])), hnil q0 (fun a ha => hother a (by simp [ha])),
+    hnil q2 (fun a ha => hother a (by simp [ha]))]
+  simp only [List.nil_append, List.append_nil]
+  have hall : ∀ a ∈ ((split F (withJob p j) g).map (stamp uuid)).take (cap - q0.length), isFragOf g a = true := by
+    intro a ha
+    obtain ⟨n, hn, rfl⟩ := List.mem_map.mp (List.mem_of_mem_take ha)
+    rw [isFragOf_stamp]
+    exact split_all_fragOf C n hn
+  rw [List.filter_eq_self.mpr hall, List.map_take, List.map_map]
+  have hsp : (split F (withJob p j) g).map ((fun n : Pkt => position n.flags) ∘ stamp uuid) = List.range m := by
+    rw [← split_positions C]
+    apply List.map_congr_left
+    intro n _
+    simp only [Function.comp]
+    unfold stamp; split <;> rfl
+  rw [hsp, List.take_range]
+
+/-! Non-vacuity: a send channel of capacity 6 that already holds one small packet; `write` of the
+15-fragment packet `dupDemo` (F = 4) leaves fragments 0..4 in it (the other ten are dropped by
+`queue`); one more small packet would be dropped too. All hypotheses of the theorem hold and the
+peer observes the positions 0, 1, 2, 3, 4 in this order. -/
+def sendDev : Bytes := 1 :: List.replicate 31 0
+def sendSmall : Pkt := { id := 0x21, job := 5, flags := 0, tags := [], dev := sendDev, payload := [7, 7] }
+def sendQ1 : List Pkt := [sendSmall] ++ ((split 4 dupDemo 9).map (stamp sendDev)).take 5
+example : withJob dupDemo 0 = dupDemo ∧ writeBig true 6 sendDev 4 [sendSmall] dupDemo 9 0 = some sendQ1 ∧
+    (∀ a ∈ [sendSmall], isFragOf 9 a = false) := by decide
+example : Batch.QWF (withJob dupDemo 0) ∧ ∀ a ∈ [sendSmall], Batch.QWF a :=
+  ⟨qwfB_sound _ (by decide), qwfB_all _ (by decide)⟩
+example : (Batch.observe (Batch.drain 256 4 sendDev 7 { q := sendQ1 ++ [], peek := none, last := 0 })).toOption.map
+    (fun l => (l.filter (isFragOf 9)).map (fun n => position n.flags)) = some [0, 1, 2, 3, 4] := by decide
 
 end XMT.Props.C02
